@@ -166,18 +166,23 @@ def lake_build(targets):
 SITES = "Tx3Proofs.Tie.Sites"
 SCHEMA = "Tx3Proofs.Tie.Schema"
 SHAPE = "Tx3Proofs.Tie.Shape"
+CONSTS = "Tx3Proofs.Tie.Constants"
 T = "Tx3.Tie."
 # which regenerated-table obligations each property rests on
 TIES_BY_PROP = {
     "C02": {SITES: [T + "translator_no_problems", T + "sites_reviewed_numeric"]},
+    "C03": {CONSTS: [T + "constants_as_modelled"]},
+    "C05": {CONSTS: [T + "constants_as_modelled", T + "constants_reviewed"]},
+    "C20": {CONSTS: [T + "constants_as_modelled"]},
     "C06": {SCHEMA: [T + "traversals_cover", T + "carriers_have_traversals"], SHAPE: [T + "ir_shape_as_modelled"]},
     "C07": {SCHEMA: [T + "traversals_cover"], SHAPE: [T + "ir_shape_as_modelled"]},
     "C08": {SCHEMA: [T + "directives_consumed_are_produced"]},
     "C11": {SCHEMA: [T + "serde_notes_reviewed", T + "wire_types_derive_serde"], SITES: [T + "sites_reviewed_wire"],
             SHAPE: [T + "ir_shape_as_modelled"]},
-    "C12": {SITES: [T + "translator_no_problems", T + "sites_reviewed_front"]},
+    "C12": {SITES: [T + "translator_no_problems", T + "sites_reviewed_front"], CONSTS: [T + "constants_reviewed"]},
     "C13": {SITES: [T + "translator_no_problems", T + "sites_reviewed_lowering"]},
-    "C14": {SITES: [T + "translator_no_problems", T + "sites_reviewed_back"], SHAPE: [T + "ir_shape_as_modelled"]},
+    "C14": {SITES: [T + "translator_no_problems", T + "sites_reviewed_back"], SHAPE: [T + "ir_shape_as_modelled"],
+            CONSTS: [T + "constants_as_modelled"]},
     "C16": {SITES: [T + "translator_no_problems", T + "sites_reviewed_json"]},
     "C17": {SITES: [T + "sites_reviewed_tii"]},
     "C18": {SCHEMA: [T + "serde_notes_reviewed"], SHAPE: [T + "ir_shape_as_modelled"]},
